@@ -63,7 +63,9 @@ def max_var(prog):
             elif k == "cassignf": we(s[4])
             elif k == "if": we(s[1]); wb(s[2]); wb(s[3])
             elif k == "while": we(s[1]); wb(s[2])
-            elif k == "for": m[0] = max(m[0], s[1]); we(s[3]); we(s[4]); wb(s[5])
+            elif k == "for":
+                m[0] = max(m[0], s[1]); we(s[3]); we(s[4]); wb(s[5])
+                if len(s) > 7 and s[7] is not None: we(s[7])
             elif k == "match":
                 we(s[1])
                 for _, b in s[3]: wb(b)
